@@ -58,6 +58,23 @@ theorem sorSweep_reverse_adj (ω : K) (n : Nat) (A : (Nat → K) →ₗ[K] (Nat 
       (sweepOp A (fun i => diag i / ω) order.reverse) :=
   sweepOp_reverse_adj n A (fun i => diag i / ω) hA order h
 
+/-- **an SOR sweep in any row order, 0 ≤ ω ≤ 2, never increases the energy of the error** -/
+theorem sorSweep_nonexp (ω : K) (h0 : 0 ≤ ω) (h2 : ω ≤ 2) (n : Nat) (rows : Nat → Row K)
+    (hsym) (hpsd) (diag : Nat → K) (hdiag : ∀ i, i < n → HasDiag i (rows i) (diag i))
+    (order : List Nat) (horder : ∀ i ∈ order, i < n) :
+    NonExp (energy n rows hsym hpsd) (csrOp n rows) (fun x b => sorSweepFn ω rows b order x) := by
+  intro x b xs hb
+  have hxs : ∀ j, j < n → csrOp n rows xs j = b j := fun j _ => by rw [hb]
+  induction order generalizing x with
+  | nil => simp [sorSweepFn]
+  | cons i rest ih =>
+    have hi : i < n := horder i (by simp)
+    have h1 := sorRow_energy n rows hsym hpsd i hi (diag i) (hdiag i hi) ω h0 h2 b x xs hxs
+    have h3 := ih (fun j hj => horder j (by simp [hj])) (sorRowFn ω i (rows i) b x)
+    simp only [sorSweepFn, List.foldl_cons] at h3 ⊢
+    exact le_trans h3 h1
+
+#print axioms sorSweep_nonexp
 #print axioms sorSweep_isLinIter
 #print axioms sorSweep_reverse_adj
 end Probe
